@@ -9,7 +9,10 @@ import (
 	"encoding/json"
 	"fmt"
 	"math/rand"
+	"os"
 	"sort"
+	"strconv"
+	"time"
 )
 
 // Ev is an event record: stimulus fields plus "res" (result) and "st" (projected state).
@@ -77,8 +80,29 @@ func Stim(ev Ev) Ev {
 	return s
 }
 
-// SafeApply applies s, converting a panic into an observation.
+// SafeApply applies s ON THE CALLER'S GOROUTINE (adapters may depend on goroutine identity), converting a panic into an
+// observation. A call that does not return within StepTimeout - a self-deadlock of the real object in a sequential
+// history - cannot be interrupted: OnHang (set by the walker / recorder / replayer) is then called from a timer
+// goroutine with the stimulus; it records the hang as the observation {"panic": "hang: ..."} and ends the process.
+var StepTimeout = func() time.Duration {
+	if v, err := strconv.Atoi(os.Getenv("VERIF_STEP_TIMEOUT")); err == nil && v > 0 {
+		return time.Duration(v) * time.Second
+	}
+	return 30 * time.Second
+}()
+
+// HangObs is the observation recorded for a call that did not return.
+func HangObs() Ev { return Ev{"panic": fmt.Sprintf("hang: the call did not return within %s", StepTimeout)} }
+
+// OnHang is called (from another goroutine) when a step exceeds StepTimeout; it must not return.
+var OnHang = func(s Ev) {
+	fmt.Fprintf(os.Stderr, "VERIF-HANG %s\n", Canon(s))
+	os.Exit(2)
+}
+
 func SafeApply(sut SUT, s Ev) (res any, st any, panicked bool) {
+	t := time.AfterFunc(StepTimeout, func() { OnHang(s) })
+	defer t.Stop()
 	defer func() {
 		if r := recover(); r != nil {
 			res, st, panicked = Ev{"panic": fmt.Sprint(r)}, nil, true
